@@ -463,7 +463,7 @@ func (rs *runState) runC16Layout(idx int, lay c16Layout) *violationT {
 		rs.infraProblem("C16 layout does not build with the co tag before cogen ran:\n" + lastLines(r.out, 20))
 		return nil
 	}
-	if r := runCmd(root, 5*time.Minute, nil, "go", "test", "-tags", "co", "-count=1", "-run", "^$", "./..."); r.code != 0 {
+	if r := runCmd(root, 5*time.Minute, nil, "go", "test", "-vet=off", "-tags", "co", "-count=1", "-run", "^$", "./..."); r.code != 0 {
 		rs.infraProblem("C16 layout's tests do not build with the co tag before cogen ran:\n" + lastLines(r.out, 20))
 		return nil
 	}
@@ -537,7 +537,7 @@ func (rs *runState) runC16Layout(idx int, lay c16Layout) *violationT {
 	if r := runCmd(root, 10*time.Minute, nil, "go", "build", "./..."); r.code != 0 {
 		return mk("build:"+buildClass(normDiag(r.out)), "after cogen the module does not build without the co tag: "+lastLines(r.out, 8))
 	}
-	if r := runCmd(root, 10*time.Minute, nil, "go", "test", "-count=1", "./..."); r.code != 0 {
+	if r := runCmd(root, 10*time.Minute, nil, "go", "test", "-vet=off", "-count=1", "./..."); r.code != 0 {
 		return mk("test", "after cogen the package tests fail without the co tag: "+lastLines(r.out, 12))
 	}
 	if r := runCmd(root, 10*time.Minute, nil, "go", "build", "-tags", "co", "./..."); r.code != 0 {
